@@ -10,6 +10,9 @@
 (* per-position charge), each actual cost must be covered by its design     *)
 (* charge, and the design charges must stay within the budget.              *)
 EXTENDS Ledger, TraceLib
+
+CONSTANT Strict    \* TRUE: the run follows the mechanism's published budget arithmetic position by position;
+                   \* FALSE: only C05 itself - the ACTUAL costs of all primitives add up to at most the budget
 VARIABLES tid, l, spent
 tvars == <<vars, tid, l, spent>>
 Tr == Traces[tid]
@@ -30,7 +33,7 @@ ExpectedLen == CASE Tr.mech = "MST" -> MSTLen(Tr.d)
                  [] Tr.mech = "AdaGrid" -> AdaLen(Tr.n1, Tr.r, Tr.n3)
 
 \* mechanisms with a fixed schedule
-Static == /\ phase = "static" /\ IsEv /\ Ev.k # "Done"
+Static == /\ Strict /\ phase = "static" /\ IsEv /\ Ev.k # "Done"
           /\ l <= ExpectedLen
           /\ LET X == Expected(l) IN
                /\ Ev.k = X.k                                  \* the published sequence of primitives
@@ -39,14 +42,14 @@ Static == /\ phase = "static" /\ IsEv /\ Ev.k # "Done"
                /\ spent' = spent + X.c
                /\ spent' <= U + 4 * l                         \* within budget
           /\ UNCHANGED vars
-StaticDone == /\ phase = "static" /\ IsEv /\ Ev.k = "Done" /\ l = ExpectedLen + 1 /\ UNCHANGED <<vars, spent>>
+StaticDone == /\ Strict /\ phase = "static" /\ IsEv /\ Ev.k = "Done" /\ l = ExpectedLen + 1 /\ UNCHANGED <<vars, spent>>
 
 \* AIM
-AIMOneWay == /\ IsEv /\ Ev.k = "R" /\ OneWay
+AIMOneWay == /\ Strict /\ IsEv /\ Ev.k = "R" /\ OneWay
              /\ Near(Ev.design, OneWayCost(T)) /\ Ev.actual <= OneWayCost(T) + Tol(OneWayCost(T))
              /\ WithinBudget' /\ spent' = used'
 \* a round is a selection followed by a release; the selection is consumed first with the round's cost fixed
-AIMSelect == /\ phase = "rounds" /\ ~term /\ IsEv /\ Ev.k = "S"
+AIMSelect == /\ Strict /\ phase = "rounds" /\ ~term /\ IsEv /\ Ev.k = "S"
              /\ LET last == U - used < 2 * RoundCost(T, level)
                     cost == IF last THEN U - used ELSE RoundCost(T, level)
                 IN  /\ cost >= 0
@@ -54,7 +57,7 @@ AIMSelect == /\ phase = "rounds" /\ ~term /\ IsEv /\ Ev.k = "S"
                     /\ spent' = spent + cost \div 10
              /\ phase' = "release" /\ UNCHANGED <<d, T, used, level, oneway, term, rounds>>
 AIMReleaseStep(a) ==
-  /\ phase = "release" /\ IsEv /\ Ev.k = "R"
+  /\ Strict /\ phase = "release" /\ IsEv /\ Ev.k = "R"
   /\ LET last == U - used < 2 * RoundCost(T, level)
          cost == IF last THEN U - used ELSE RoundCost(T, level)
          rc == (9 * cost) \div 10
@@ -65,9 +68,13 @@ AIMReleaseStep(a) ==
   /\ rounds' = rounds + 1 /\ phase' = "rounds"
   /\ UNCHANGED <<d, T, oneway>>
   /\ WithinBudget'
-AIMDone == /\ phase = "rounds" /\ term /\ IsEv /\ Ev.k = "Done" /\ UNCHANGED <<vars, spent>>
+AIMDone == /\ Strict /\ phase = "rounds" /\ term /\ IsEv /\ Ev.k = "Done" /\ UNCHANGED <<vars, spent>>
 
-TraceNext == Static \/ StaticDone \/ AIMOneWay \/ AIMSelect \/ (\E a \in BOOLEAN : AIMReleaseStep(a)) \/ AIMDone
+LAny == /\ ~Strict /\ IsEv
+        /\ spent' = spent + Ev.actual
+        /\ spent' <= U + 4 * l               \* charged by the actual change, never above the budget
+        /\ UNCHANGED vars
+TraceNext == LAny \/ Static \/ StaticDone \/ AIMOneWay \/ AIMSelect \/ (\E a \in BOOLEAN : AIMReleaseStep(a)) \/ AIMDone
 TraceSpec == TraceInit /\ [][TraceNext]_tvars
 Marker == Mark(tid, l)
 ASSUME InitMarks
